@@ -132,7 +132,7 @@ def cases(ctx, n):
         if head:
             f = gen.formula(rng, atoms, rng.randint(1, 3), gen.HEAD_UN, gen.HEAD_BIN, None, ['true', 'false', 'initial'], nfold=0.4, leaf=0.2)
         else:
-            f = gen.formula(rng, atoms, rng.randint(1, 3), nfold=0.4, leaf=0.2)
+            f = gen.late_future(rng, atoms) if rng.random() < 0.25 else gen.formula(rng, atoms, rng.randint(1, 3), nfold=0.4, leaf=0.2)
         ps = positions(f, head)
         if head:
             ps = [p for p in ps if not findings.fml_has(p[2], ('final', 'finally')) or not findings.open_classes('C04')]
